@@ -601,8 +601,13 @@ def pyIndex (es : List SExp) (c : Const) : X SExp :=
     let k' := if k < 0 then k + n else k
     if 0 ≤ k' ∧ k' < n then pure (es.getD k'.toNat (.const c)) else throw (.exc "IndexError" "index out of range")
 
+/-- the end of `__unroll_arg`: a node whose elements are not known is its own only element, or (`strict`: `len`,
+`sum`, `any`, `all`, one-argument `min` / `max`, since 5e521a1) refused -/
+def unrollRest (strict : Bool) (arg : SExp) : X (List SExp) :=
+  if strict then throw (.exc "Exception" "Not an iterable of known length") else pure [arg]
+
 /-- `__unroll_arg` -/
-def unrollArg (st : RSt) (arg : SExp) : X (List SExp) :=
+def unrollArg (st : RSt) (strict : Bool) (arg : SExp) : X (List SExp) :=
   match arg with
   | .tuple es => pure es
   | .sub (.name L) sl =>
@@ -615,8 +620,8 @@ def unrollArg (st : RSt) (arg : SExp) : X (List SExp) :=
         | r => r
       match row' with
       | .tuple r => pure ((List.range r.length).map fun (i : Nat) => .sub (.sub (.name L) (.const c)) (.const (.int (i : Int))))
-      | _ => pure [arg]
-    | _, _ => pure [arg]
+      | _ => unrollRest strict arg
+    | _, _ => unrollRest strict arg
   | .name n =>
     match (lookup st.types n).bind EVal.asNode? with
     | some (.sub hd sl) =>
@@ -625,16 +630,16 @@ def unrollArg (st : RSt) (arg : SExp) : X (List SExp) :=
         if h == "Tuple" then do
           let es ← eltsOf sl
           pure ((List.range es.length).map fun (i : Nat) => .sub (.name n) (.const (.int (i : Int))))
-        else pure [arg]
+        else unrollRest strict arg
       | _ => throw (attrErr "id")
     | some (.tuple _) =>
       match lookup st.consts n with
       | some v => match v.asNode? with
         | some e => eltsOf e
         | none => throw (attrErr "elts")
-      | none => pure [arg]
-    | _ => pure [arg]
-  | _ => pure [arg]
+      | none => unrollRest strict arg
+    | _ => unrollRest strict arg
+  | _ => unrollRest strict arg
 
 /-- `a0 + (a1 + (…))` of `__call_sum` -/
 def sumChain : List SExp → X SExp
@@ -659,11 +664,11 @@ def visitCall (st : RSt) (fn : String) (args : List SExp) : X SExp :=
   | "range" => throw (.outside "range outside the iterator of a for")
   | "len" =>
     match args with
-    | [a] => do pure (.const (.int (← unrollArg st a).length))
+    | [a] => do pure (.const (.int (← unrollArg st true a).length))
     | _ => throw (.exc "Exception" "Len only receives one argument")
   | "sum" =>
     match args with
-    | [a] => do sumChain (← unrollArg st a)
+    | [a] => do sumChain (← unrollArg st true a)
     | _ => throw (.exc "Exception" "sum() takes at most 1 argument")
   | "ord" | "chr" =>
     match args with
@@ -671,11 +676,11 @@ def visitCall (st : RSt) (fn : String) (args : List SExp) : X SExp :=
     | _ => throw (.exc "Exception" "takes exactly 1 argument")
   | "any" | "all" =>
     match args with
-    | [a] => do pure (.boolop (fn == "all") (← unrollArg st a))
+    | [a] => do pure (.boolop (fn == "all") (← unrollArg st true a))
     | _ => throw (.exc "Exception" "any() takes exactly 1 argument")
   | "min" | "max" => do
     let xs ← match args with
-      | [a] => unrollArg st a
+      | [a] => unrollArg st true a
       | _ => pure args
     minmaxChain (if fn == "max" then "Gt" else "LtE") xs
   | _ => pure (.call fn args)
@@ -984,13 +989,13 @@ def forIter (it : SExp) : RM (List SExp) := do
   | .name n =>
     note "for-name"
     let it' ← visitM (.name n)
-    let elems ← liftX (unrollArg (← get) it')
+    let elems ← liftX (unrollArg (← get) false it')
     liftX (iterVals elems)
   | it =>
     -- a row `m[c]`, an if-chain, a call …: visited, then unrolled as far as `__unroll_arg` knows it
     note "for-other"
     let it' ← visitM it
-    let elems ← liftX (unrollArg (← get) it')
+    let elems ← liftX (unrollArg (← get) false it')
     liftX (iterVals elems)
 
 /-! ## statements -/
@@ -1066,23 +1071,27 @@ end
 def digitsVal (l : List Char) : Nat := l.foldl (fun a c => a * 10 + (c.toNat - 48)) 0
 
 mutual
-/-- `_replace_types_annotations` -/
+/-- `_replace_types_annotations` (since f3ecbf2: a one-element `Tuple[T]` is elaborated too, and the element annotation
+of a `Qlist` / `Qmatrix` is elaborated before it is repeated) -/
 def replaceAnn : SExp → X SExp
   | .sub (.name hd) sl =>
     if hd == "Tuple" then
       match sl with
       | .tuple es => do pure (.sub (.name "Tuple") (.tuple (← replaceAnns es)))
       | .list es => do pure (.sub (.name "Tuple") (.tuple (← replaceAnns es)))
-      | _ => pure (.sub (.name hd) sl)
+      | e => do pure (.sub (.name "Tuple") (.tuple [← replaceAnn e]))
     else if hd == "Qlist" then
       match sl with
-      | .tuple (t :: .const (.int n) :: _) => pure (.sub (.name "Tuple") (.tuple (List.replicate n.toNat t)))
+      | .tuple (t :: .const (.int n) :: _) => do
+        let t' ← replaceAnn t
+        pure (.sub (.name "Tuple") (.tuple (List.replicate n.toNat t')))
       | .tuple _ => throw (.outside "Qlist annotation form")
       | _ => pure (.sub (.name hd) sl)
     else if hd == "Qmatrix" then
       match sl with
-      | .tuple (t :: .const (.int n) :: .const (.int m) :: _) =>
-        pure (.sub (.name "Tuple") (.tuple (List.replicate n.toNat (.tuple (List.replicate m.toNat t)))))
+      | .tuple (t :: .const (.int n) :: .const (.int m) :: _) => do
+        let t' ← replaceAnn t
+        pure (.sub (.name "Tuple") (.tuple (List.replicate n.toNat (.tuple (List.replicate m.toNat t')))))
       | .tuple _ => throw (.outside "Qmatrix annotation form")
       | _ => pure (.sub (.name hd) sl)
     else pure (.sub (.name hd) sl)
